@@ -57,3 +57,7 @@ func VerifReadReverseConnectClaim(ctx context.Context, s *stream.Stream) (string
 	}
 	return AdString(ad, AttrClaimID), nil
 }
+
+// VerifMaxControlAdSize exposes maxControlAdSize, the byte budget
+// readReverseConnect / ReadControlAd hand to GetClassAdWithMaxSize.
+const VerifMaxControlAdSize = maxControlAdSize
